@@ -4,7 +4,7 @@ per-operation lemmas (used by Props/C09, C10, C14).
 -/
 import PsdVerif.Lemmas.TreeRefuse
 
-namespace PsdVerif.Tree
+namespace PsdVerif.TreeSt
 
 theorem inv_step (s : State) (op : Op) (i : Inv s) (hg : Guard s op)
     (hne : (step .current s op).2 ≠ .error .recursionError) : Inv (step .current s op).1 := by
@@ -151,4 +151,4 @@ theorem step_ref (s : State) (op : Op) (e : Err) (i : Inv s)
   | observe o => exact fun _ => observe_same s o
 
 
-end PsdVerif.Tree
+end PsdVerif.TreeSt
